@@ -75,6 +75,8 @@ inductive Attr
   | mi (st : MiSt)              -- MESSAGE-INTEGRITY
   | fingerprint (good : Bool)   -- FINGERPRINT with a right / wrong CRC
   | other                       -- any other attribute, known or unknown, with a well-formed length
+  | useCandidate                -- a USE-CANDIDATE attribute at this position of the trailer
+  | priority (n : Nat)          -- a PRIORITY attribute at this position of the trailer
   | overrun                     -- an attribute whose length field runs past the end of the message body
   deriving DecidableEq, Repr
 
@@ -124,6 +126,8 @@ structure Pair where
   nominated : Bool := false
   nominating : Bool := false
   tx : Option Nat := none
+  /-- transmissions of the outstanding check so far (`QXmppStunTransaction::m_tries`) -/
+  tries : Nat := 0
   deriving DecidableEq, Repr
 
 structure Cand where
@@ -190,7 +194,7 @@ def St.addPair (s : St) (p : Pair) : St := { s with pairs := sortDesc s.prioOf (
 /-- `performCheck(pair, nominate)`: new transaction, pair in progress; the request leaves immediately -/
 def performCheck (s : St) (remote : Nat) (nominate : Bool) : St × List Out :=
   let t := s.nextTx
-  ({ s with pairs := updatePair s.pairs remote fun p => { p with nominating := nominate, state := .inProgress, tx := some t },
+  ({ s with pairs := updatePair s.pairs remote fun p => { p with nominating := nominate, state := .inProgress, tx := some t, tries := 1 },
             nextTx := t + 1 },
    [.pairState remote .inProgress, .checkSent remote t s.controlling])
 
@@ -285,6 +289,8 @@ def prescan : List Attr → Bool
   | .mi _ :: _ => true
   | .fingerprint _ :: _ => false
   | .other :: rest => prescan rest
+  | .useCandidate :: rest => prescan rest
+  | .priority _ :: rest => prescan rest
   | .overrun :: _ => false            -- the offset jumps past the end of the buffer: the loop ends
 
 /-- the attribute loop of `QXmppStunMessage::decode`: `afterIntegrity` = a MESSAGE-INTEGRITY has been verified already -/
@@ -298,6 +304,34 @@ def decodeWalk (keyRemote : Bool) : Bool → List Attr → Dec
       | e => e
   | _, .fingerprint good :: _ => if good then .ok else .badFp   -- "stop parsing, no more attributes are allowed"
   | afterIntegrity, .other :: rest => decodeWalk keyRemote afterIntegrity rest
+  | afterIntegrity, .useCandidate :: rest => decodeWalk keyRemote afterIntegrity rest
+  | afterIntegrity, .priority _ :: rest => decodeWalk keyRemote afterIntegrity rest
+
+/-- Which USE-CANDIDATE / PRIORITY attributes of the trailer does a successful `decode` actually parse?  Exactly those in front
+of the first MESSAGE-INTEGRITY: behind it "only FINGERPRINT is allowed" and every other attribute is skipped unparsed (it is
+not covered by the HMAC); at a FINGERPRINT parsing stops. -/
+def parsedUc : List Attr → Bool
+  | [] => false
+  | .useCandidate :: _ => true
+  | .mi _ :: _ => false
+  | .fingerprint _ :: _ => false
+  | .overrun :: _ => false
+  | .other :: rest => parsedUc rest
+  | .priority _ :: rest => parsedUc rest
+
+/-- the PRIORITY in force after parsing the trailer (a later attribute overwrites an earlier one) -/
+def parsedPrio (cur : Nat) : List Attr → Nat
+  | [] => cur
+  | .priority n :: rest => parsedPrio n rest
+  | .mi _ :: _ => cur
+  | .fingerprint _ :: _ => cur
+  | .overrun :: _ => cur
+  | .other :: rest => parsedPrio cur rest
+  | .useCandidate :: rest => parsedPrio cur rest
+
+/-- the message as `decode` hands it to handleDatagram -/
+def Stun.decoded (m : Stun) : Stun :=
+  { m with useCandidate := m.useCandidate || parsedUc m.attrs, priority := parsedPrio m.priority m.attrs }
 
 /-- `QXmppIceComponent::handleDatagram` -/
 def react (s : St) (d : Datagram) : St × List Out :=
@@ -320,7 +354,7 @@ def react (s : St) (d : Datagram) : St × List Out :=
     | .ok =>
       if m.method != .binding then (s, [.accepted]) else
       match m.cls with
-      | .request => let r := handleRequest s d.src m; (r.1, .accepted :: r.2)
+      | .request => let r := handleRequest s d.src m.decoded; (r.1, .accepted :: r.2)
       | .indication => (s, [.accepted])
       | .response => let r := handleResponse s d.src m; (r.1, .accepted :: r.2)
       | .error => let r := handleResponse s d.src m; (r.1, .accepted :: r.2)
@@ -337,6 +371,16 @@ def txFinished (s : St) (t : Nat) : St × List Out :=
   | some p =>
     ({ s with pairs := updatePair s.pairs p.remote fun q => { q with state := .failed, tx := none } },
      [.pairState p.remote .failed])
+
+/-- the retransmission timer of transaction `t` fires (`QXmppStunTransaction::retry`): the same request is sent again, or,
+after STUN_RTO_MAX = 7 transmissions, the transaction finishes with an error and the pair fails -/
+def retransmit (s : St) (t : Nat) : St × List Out :=
+  match s.pairs.find? (fun p => p.tx == some t) with
+  | none => (s, [])
+  | some p =>
+    if p.tries ≥ 7 then txFinished s t
+    else ({ s with pairs := updatePair s.pairs p.remote fun q => { q with tries := q.tries + 1 } },
+          [.checkSent p.remote t s.controlling])
 
 /-- `QXmppIceConnection::addRemoteCandidate` for a host/server-reflexive/relayed UDP candidate of this component -/
 def addRemote (s : St) (addr prio : Nat) : St × List Out :=
@@ -362,6 +406,9 @@ def sendApp (s : St) (payload : List UInt8) : St × List Out :=
 
 inductive Op
   | setRemoteCreds
+  | setRemoteUser
+  | setRemotePassword
+  | retransmit (t : Nat)
   | addRemote (addr prio : Nat)
   | connect
   | dgram (d : Datagram)
@@ -372,6 +419,9 @@ inductive Op
 
 def step (s : St) : Op → St × List Out
   | .setRemoteCreds => ({ s with remoteUserSet := true, remotePwSet := true }, [])
+  | .setRemoteUser => ({ s with remoteUserSet := true }, [])
+  | .setRemotePassword => ({ s with remotePwSet := true }, [])
+  | .retransmit t => retransmit s t
   | .addRemote a p => addRemote s a p
   | .connect => connect s
   | .dgram d => react s d
@@ -411,6 +461,8 @@ def protectingMi : List Attr → Option MiSt
   | .mi st :: _ => some st
   | .fingerprint _ :: _ => none
   | .other :: rest => protectingMi rest
+  | .useCandidate :: rest => protectingMi rest
+  | .priority _ :: rest => protectingMi rest
   | .overrun :: _ => none
 
 /-- a STUN datagram that does not carry a valid integrity code under the session key for its class: no protecting
